@@ -268,8 +268,10 @@ def _t(ck, what):
 def _replay_records(ck: Check, recs, label):
     CH = 250
     chunks = [(recs[i:i + CH], i) for i in range(0, len(recs), CH)]
-    if len(recs) > 600:
-        with ProcessPoolExecutor(8) as ex:
+    if len(recs) > 1500:
+        # import accelforge once, before forking: concurrent imports in the helpers are very slow
+        judge(recs[0])
+        with ProcessPoolExecutor(4) as ex:
             results = list(ex.map(_chunk, chunks))
     else:
         results = [_chunk(ch) for ch in chunks]
@@ -296,6 +298,8 @@ def _replay_records(ck: Check, recs, label):
 
 def run(ck: Check):
     thorough = ck.tier == "thorough"
+    for v in ("OMP_NUM_THREADS", "OPENBLAS_NUM_THREADS", "MKL_NUM_THREADS", "NUMEXPR_NUM_THREADS"):
+        os.environ.setdefault(v, "1")       # many small frames: thread pools only add contention
     ck.rule = ("table lists (per Einsum a list of sub-tables with 0..n rows), payload column sets and selections are "
                "enumerated (exhaustive configs) or drawn (-simulate) by TLC from spec/MC_Compress.tla together with "
                "the payload each result row must carry (definition Compress!RowOf); each case goes through the real "
@@ -314,9 +318,8 @@ def run(ck: Check):
                        "(spec invariant NoError); exceptions elsewhere are implementation errors"]
     # ---- role A
     acts = ("CompressSub", "JoinSelect", "DecStart", "DecAdvance", "DecPick", "DecMerge")
-    for cfg in (("Compress_A1.cfg", "Compress_A2.cfg", "Compress_A3.cfg") if thorough
-                else ("Compress_A1q.cfg", "Compress_A2q.cfg")):
-        ck.tlc_expect_ok("Compress", cfg, required_actions=acts, timeout=3000)
+    ck.tlc_expect_ok("Compress", "Compress_At.cfg" if thorough else "Compress_Aq.cfg",
+                     required_actions=acts, timeout=3000)
     ck.extra["role_A"] = ("Compress: Lossless, NoError, CompressInv hold for all shape lists and selections within "
                           "the bounds of the A configs (1 Einsum: <= 3 sub-tables x 0..3 rows, <= %d result rows; "
                           "2 Einsums: <= 2 x 0..2, <= %d result rows%s)"
@@ -341,7 +344,7 @@ def run(ck: Check):
     for cfg, seed in plan:
         kw = {"workers": 8}
         if seed is not None:
-            kw = {"seed": seed, "workers": 1, "simulate": "num=1", "depth": (3000 if thorough else 1200)}
+            kw = {"seed": seed, "workers": 1, "simulate": "num=1", "depth": (3000 if thorough else 800)}
         res = ck.tlc("MC_Compress", cfg, timeout=3000, coverage=False, **kw)
         if not res.ok:
             raise Machinery("generator %s failed: %s\n%s" % (cfg, res.violated, res.tail))
